@@ -504,6 +504,10 @@ pub fn run(ctx: &Ctx) {
          walker) are skipped and counted. Non-trivial: a mutated input that still has a parseable header and differs from its base, or a crafted hazard; distinct by digest.",
     );
     ctx.rec.assume("a per-case timeout or a worker infrastructure error is reported as inconclusive (exit 2), never as a violation");
+    if std::env::var("VERIF_C08_ONLY_FUZZ").is_ok() {
+        fuzz_stage(ctx); // debugging aid
+        return;
+    }
     // (1)
     let corpus = crafted_corpus();
     run_list(ctx, "crafted-hazards", &corpus, check_crafted);
@@ -537,10 +541,146 @@ pub fn run(ctx: &Ctx) {
     });
     // (3)
     run_proptest(ctx, "structure-aware-mutation", PtCfg { lanes: ctx.lanes, cases: ctx.tier.pick(1500, 40_000), max_shrink: 48 }, || mut_strategy(ctx.tier.pick(120, 600)), check_mut);
+    if ctx.tier == crate::engine::Tier::Thorough {
+        fuzz_stage(ctx);
+    }
     // timeouts / worker problems are infrastructure
     for c in ["crafted-hazard", "prefix", "byte-substitution", "varint-field-mutation", "header-field-mutation", "byte-level-mutation", "with-leaves"] {
         ctx.rec.floor(c, 20);
     }
+}
+
+/// Thorough tier only: coverage-guided campaigns (cargo-fuzz / libFuzzer, nightly toolchain, ASan) on four
+/// targets. Campaigns are bounded by wall-clock (fork mode), so they only ever *add* findings: every saved
+/// artifact is re-executed through the sandboxed worker and counts only if it fails there.
+fn fuzz_stage(ctx: &Ctx) {
+    use std::process::Command;
+    let t0 = std::time::Instant::now();
+    let fuzz_dir = ctx.verif_dir.join("fuzz");
+    let work = ctx.verif_dir.join("work").join(format!("fuzz-{}", std::process::id()));
+    let corpus = work.join("corpus");
+    let arts = work.join("artifacts");
+    if write_fuzz_corpus(&corpus).is_err() {
+        ctx.rec.infra("libFuzzer stage: cannot write the seed corpus");
+        return;
+    }
+    let secs: u64 = std::env::var("VERIF_FUZZ_SECS").ok().and_then(|s| s.parse().ok()).unwrap_or(300);
+    let build = Command::new("cargo").args(["+nightly", "fuzz", "build", "--fuzz-dir"]).arg(&fuzz_dir).env("CARGO_NET_OFFLINE", "true").output();
+    match build {
+        Ok(o) if o.status.success() => {}
+        Ok(o) => {
+            ctx.rec.infra(&format!("libFuzzer stage: `cargo +nightly fuzz build` failed: {}", String::from_utf8_lossy(&o.stderr).lines().rev().take(5).collect::<Vec<_>>().join(" | ")));
+            return;
+        }
+        Err(e) => {
+            ctx.rec.infra(&format!("libFuzzer stage: cargo not runnable: {e}"));
+            return;
+        }
+    }
+    let mut total_execs = 0u64;
+    let mut judged = 0u64;
+    let mut acc = crate::engine::record::LaneAcc::default();
+    for (target, max_len) in [("c08_struct", 512), ("c08_archive", 4096), ("c08_directory", 2048), ("c08_decompress", 4096)] {
+        let adir = arts.join(target);
+        let _ = std::fs::create_dir_all(&adir);
+        let out = Command::new("cargo")
+            .args(["+nightly", "fuzz", "run", "--fuzz-dir"])
+            .arg(&fuzz_dir)
+            .arg(target)
+            .arg(corpus.join(target))
+            .arg("--")
+            .args([
+                &format!("-max_total_time={secs}"),
+                &format!("-seed={}", ctx.seed.max(1)),
+                &format!("-max_len={max_len}"),
+                "-len_control=0",
+                &format!("-fork={}", ctx.lanes),
+                "-ignore_crashes=1",
+                "-ignore_ooms=1",
+                "-ignore_timeouts=1",
+                "-rss_limit_mb=6000",
+                "-malloc_limit_mb=5000",
+                "-timeout=25",
+                &format!("-artifact_prefix={}/", adir.display()),
+            ])
+            .env("CARGO_NET_OFFLINE", "true")
+            .output();
+        let Ok(out) = out else {
+            ctx.rec.infra(&format!("libFuzzer stage: could not run target {target}"));
+            continue;
+        };
+        // fork mode prints "#N: cov: ... exec/s: ..." lines; the last N is the number of executions
+        let log = String::from_utf8_lossy(&out.stderr).to_string();
+        let execs = log.lines().rev().find_map(|l| l.strip_prefix('#').and_then(|r| r.split(':').next()).and_then(|n| n.trim().parse::<u64>().ok())).unwrap_or(0);
+        total_execs += execs;
+        acc.evals += execs;
+        ctx.rec.observe(&format!("libfuzzer_{target}_executions"), serde_json::json!(execs));
+        // judge artifacts through the sandbox
+        let mut files: Vec<std::path::PathBuf> = std::fs::read_dir(&adir).map(|rd| rd.filter_map(Result::ok).map(|e| e.path()).collect()).unwrap_or_default();
+        files.sort();
+        ctx.rec.observe(&format!("libfuzzer_{target}_artifacts"), serde_json::json!(files.len()));
+        for f in files.iter().take(200) {
+            let Ok(data) = std::fs::read(f) else { continue };
+            let Some(job) = crate::fuzz_entry::job_for(target, &data) else { continue };
+            judged += 1;
+            if let Err(fail) = judge_with(&job, false) {
+                ctx.rec.violation(&ctx.verif_dir, ctx.prop, "fuzz-corpus", &fail, serde_json::to_value(&job).unwrap_or(Value::Null));
+            }
+        }
+    }
+    acc.nontrivial_undigested = 0;
+    ctx.rec.merge("libfuzzer-campaigns", acc);
+    ctx.rec.observe("libfuzzer_artifacts_rejudged_in_sandbox", serde_json::json!(judged));
+    ctx.rec.sub_done(
+        "libfuzzer-campaigns",
+        false,
+        t0.elapsed().as_secs_f64(),
+        &format!("4 cargo-fuzz targets x {secs}s, fork={}, ASan; {total_execs} executions; artifacts count only if they fail again in the sandboxed worker", ctx.lanes),
+    );
+    let _ = std::fs::remove_dir_all(&work);
+}
+
+/// Write the libFuzzer seed corpora (crafted hazards and small valid archives) under `dir/<target>/`.
+pub fn write_fuzz_corpus(dir: &std::path::Path) -> std::io::Result<usize> {
+    let mut n = 0;
+    for t in ["c08_archive", "c08_directory", "c08_decompress", "c08_struct"] {
+        std::fs::create_dir_all(dir.join(t))?;
+    }
+    for (i, c) in crafted_corpus().iter().enumerate() {
+        if c.job.bytes.len() > 65_536 {
+            continue;
+        }
+        let (t, bytes): (&str, Vec<u8>) = match c.job.mode {
+            0 | 6 => ("c08_archive", c.job.bytes.clone()),
+            1..=5 => {
+                let mut b = vec![c.job.mode - 1];
+                b.extend_from_slice(&c.job.bytes);
+                ("c08_directory", b)
+            }
+            7 => ("c08_decompress", c.job.bytes.clone()),
+            _ => continue,
+        };
+        std::fs::write(dir.join(t).join(format!("crafted-{i:04}")), bytes)?;
+        n += 1;
+    }
+    for (i, (_, b)) in small_bases().iter().enumerate() {
+        std::fs::write(dir.join("c08_archive").join(format!("base-{i:02}")), b)?;
+        n += 1;
+    }
+    for c in 1..=4u8 {
+        let mut d = vec![c];
+        d.extend_from_slice(&codec::compress(c, b"{\"some\":\"valid stream\",\"n\":[1,2,3,4,5,6,7,8,9]}", codec::Params::default()));
+        std::fs::write(dir.join("c08_decompress").join(format!("valid-{c}")), d)?;
+        n += 1;
+    }
+    let mut r = crate::engine::Sm(0xF022);
+    for i in 0..64 {
+        let mut b = vec![0u8; 24 + (i % 5) * 16];
+        r.fill(&mut b);
+        std::fs::write(dir.join("c08_struct").join(format!("seed-{i:02}")), b)?;
+        n += 1;
+    }
+    Ok(n)
 }
 
 pub fn replay(sub: &str, case: &Value) -> Option<CaseResult> {
